@@ -318,11 +318,13 @@ pub struct SvcCfg {
     pub host: HostMode,
     pub script: Option<Script>,
     pub read_body: bool,
+    /// the provider is the library's own `SimpleAuth` holding `keys` (nothing is recorded for it) instead of the recording one
+    pub simple_auth: bool,
 }
 
 impl Default for SvcCfg {
     fn default() -> Self {
-        SvcCfg { keys: None, access: AccessMode::None, route: RouteMode::None, host: HostMode::None, script: None, read_body: true }
+        SvcCfg { keys: None, access: AccessMode::None, route: RouteMode::None, host: HostMode::None, script: None, read_body: true, simple_auth: false }
     }
 }
 
@@ -339,7 +341,15 @@ impl SvcCfg {
         let log: Log = Arc::new(Mutex::new(Vec::new()));
         let mut b = S3ServiceBuilder::new(RecBackend { log: log.clone(), script: self.script.clone(), read_body: self.read_body });
         if let Some(keys) = &self.keys {
-            b.set_auth(RecAuth { log: log.clone(), keys: keys.clone() });
+            if self.simple_auth {
+                let mut auth = s3s::auth::SimpleAuth::new();
+                for (ak, sk) in keys {
+                    auth.register(ak.clone(), SecretKey::from(sk.as_str()));
+                }
+                b.set_auth(auth);
+            } else {
+                b.set_auth(RecAuth { log: log.clone(), keys: keys.clone() });
+            }
         }
         if self.access == AccessMode::Inherited {
             b.set_access(InheritAccess(RecAccess { log: log.clone(), mode: self.access }));
